@@ -183,12 +183,12 @@ def load_dot(path):
     return g
 
 
-def dump_graph(module, cfg_text, timeout=600):
+def dump_graph(module, cfg_text, timeout=600, workers=1):
     """Run TLC exhaustively with -dump and return (TLCResult, Graph)."""
     tmp = tempfile.mkdtemp(prefix="verif_graph_")
     try:
         base = os.path.join(tmp, "graph")
-        r = run_tlc(module, cfg_text, workers=1, timeout=timeout, dump=base)
+        r = run_tlc(module, cfg_text, workers=workers, timeout=timeout, dump=base)
         if r.error or r.violation:
             raise TLCError("graph dump of %s failed: %s %s\n%s" % (module, r.error, r.violation, r.out[-2000:]))
         return r, load_dot(base + ".dot")
